@@ -294,6 +294,7 @@ func tokenizeForSemantics(content string) []semanticToken {
 	// the word as the commodity and lexes the rest again, and so must this function.
 	prevWasNumber := false
 	amountHasCommodity := false
+	prevWasDate := false
 
 	for {
 		tok := lexer.Next()
@@ -367,9 +368,15 @@ func tokenizeForSemantics(content string) []semanticToken {
 					tok = lexer.RescanWord(tok)
 					amountHasCommodity = true
 				}
+			} else if inDirective && directiveType == "P" && prevWasDate {
+				// the priced commodity of a P directive written as a lower-case word
+				if fields := strings.Fields(tok.Value); len(fields) > 0 && isCommodityWord(fields[0]) {
+					tok = lexer.RescanWord(tok)
+				}
 			}
 		}
 		prevWasNumber = tok.Type == parser.TokenNumber
+		prevWasDate = tok.Type == parser.TokenDate
 
 		prevEnd = tok.End.Offset
 
